@@ -587,7 +587,7 @@ thread_local! {
 }
 
 pub fn watch_limit_s() -> u64 {
-    std::env::var("VERIF_WATCHDOG_S").ok().and_then(|s| s.parse().ok()).unwrap_or(30)
+    std::env::var("VERIF_WATCHDOG_S").ok().and_then(|s| s.parse().ok()).unwrap_or(60)
 }
 
 /// Execute `f` as one watched unit of work; `case` renders the replayable case (only evaluated when the watchdog runs).
@@ -616,6 +616,19 @@ pub fn watched<T>(case: impl FnOnce() -> Value, f: impl FnOnce() -> T) -> T {
         MY_WATCH_SLOT.with(|s| *s.cur.lock().unwrap() = None);
     }
     r
+}
+
+/// Cheap progress mark inside a watched unit (no allocation): restarts its timer. Called between the individual library
+/// calls of a unit, so that the limit applies to ONE call that does not return, not to a long unit on a loaded machine.
+pub fn beat() {
+    if !WATCH_ON.load(Ordering::Relaxed) {
+        return;
+    }
+    MY_WATCH_SLOT.with(|s| {
+        if let Some((t, _, _)) = &mut *s.cur.lock().unwrap() {
+            *t = Instant::now();
+        }
+    });
 }
 
 /// Progress inside a watched unit: restarts its timer and records where it is.
